@@ -436,6 +436,9 @@ func Main(c *Check, tb *testing.T) int {
 	}
 
 	wall := time.Since(start).Seconds()
+	for k, v := range takeGlobalCounts() {
+		counters[k] += v // includes the calls of the determinism re-check and of shrinking
+	}
 	writeEvidence(c, tier, master, n, done, counters, states, samples, simTime, batchDigest, rechecks, knownPrinted, newViolations, len(allViol), stuck, wall)
 	fmt.Printf("property=%s tier=%s runs=%d/%d evaluations=%d distinct=%d violations(new)=%d known=%d batch_digest=%s wall=%.1fs\n",
 		c.ID, tier, done, n, counters["eval"], len(states), newViolations, len(knownPrinted), batchDigest, wall)
